@@ -9,6 +9,8 @@
                _handle_retire_connection_id_frame, _replenish_connection_ids, NEW_CONNECTION_ID write +
                delivery callback, the destination-CID check and the "peer switched CID" branch of
                receive_datagram.
+   The model follows the tree WITH the three C18 fixes (docs/C18.md: F1 no connection ID left -> PROTOCOL_VIOLATION,
+   F2 late NEW_CONNECTION_ID retired at once, F3 RETIRE_CONNECTION_ID of a never-sent host ID -> PROTOCOL_VIOLATION).
    No proofs in this file. *)
 From AQ Require Import lib.Base lib.Tok gen.C18Consts.
 
@@ -28,6 +30,7 @@ Record st := mkSt {
   (* locally issued IDs *)
   hosts : list hcid;       (* _host_cids *)
   hseq : Z;                (* _host_cid_seq *)
+  hsent : Z;               (* _host_cid_seq_sent: highest sequence number ever written in a NEW_CONNECTION_ID *)
   rlimit : Z;              (* _remote_active_connection_id_limit *)
   hcur : Z;                (* sequence number of self.host_cid *)
   issued : list Z;         (* ghost: ConnectionIdIssued events emitted (sequence numbers; 0 = the initial ID) *)
@@ -39,22 +42,21 @@ Record st := mkSt {
 
 Definition set_peer (s : st) cur' avail' seen' rpt' pend' recvd' : st :=
   mkSt (is_client s) cur' avail' seen' rpt' pend' (outs s) (ackd s) recvd'
-       (hosts s) (hseq s) (rlimit s) (hcur s) (issued s) (retiredev s) (pkt s) (closed s).
+       (hosts s) (hseq s) (hsent s) (rlimit s) (hcur s) (issued s) (retiredev s) (pkt s) (closed s).
 Definition set_deliv (s : st) pend' outs' ackd' : st :=
   mkSt (is_client s) (cur s) (avail s) (seen s) (rpt s) pend' outs' ackd' (recvd s)
-       (hosts s) (hseq s) (rlimit s) (hcur s) (issued s) (retiredev s) (pkt s) (closed s).
-Definition set_host (s : st) hosts' hseq' issued' retiredev' : st :=
+       (hosts s) (hseq s) (hsent s) (rlimit s) (hcur s) (issued s) (retiredev s) (pkt s) (closed s).
+Definition set_host (s : st) hosts' hseq' hsent' issued' retiredev' : st :=
   mkSt (is_client s) (cur s) (avail s) (seen s) (rpt s) (pend s) (outs s) (ackd s) (recvd s)
-       hosts' hseq' (rlimit s) (hcur s) issued' retiredev' (pkt s) (closed s).
+       hosts' hseq' hsent' (rlimit s) (hcur s) issued' retiredev' (pkt s) (closed s).
 Definition set_ctx (s : st) hcur' pkt' closed' : st :=
   mkSt (is_client s) (cur s) (avail s) (seen s) (rpt s) (pend s) (outs s) (ackd s) (recvd s)
-       (hosts s) (hseq s) (rlimit s) hcur' (issued s) (retiredev s) pkt' closed'.
+       (hosts s) (hseq s) (hsent s) (rlimit s) hcur' (issued s) (retiredev s) pkt' closed'.
 
 (* outcome of one op *)
 Inductive outc :=
 | OOk
 | OQErr (code : Z)      (* QuicConnectionError caught by receive_datagram -> close(code) *)
-| OExnIndex             (* IndexError ("pop from empty list") escaping receive_datagram / change_connection_id *)
 | ODrop                 (* packet not accepted by the destination-CID check *)
 | OIgn.                 (* nothing happened: no packet in progress, or connection already closing *)
 
@@ -64,7 +66,7 @@ Fixpoint remove1 (x : Z) (l : list Z) : list Z :=
 
 (* state right after construction (peer's first packet seen: _peer_cid.sequence_number = 0) *)
 Definition init (client : bool) : st :=
-  mkSt client 0 [] [0] 0 [] [] [] [0] [mkH 0 true] 1 INITIAL_REMOTE_ACTIVE_CID_LIMIT 0 [0] [] None None.
+  mkSt client 0 [] [0] 0 [] [] [] [0] [mkH 0 true] 1 0 INITIAL_REMOTE_ACTIVE_CID_LIMIT 0 [0] [] None None.
 
 (* ------------------------------------------------------------------ locally issued IDs *)
 
@@ -78,12 +80,12 @@ Fixpoint replenish_loop (fuel : nat) (hs : list hcid) (next target : Z) : list h
 Definition replenish (s : st) : st :=
   let target := Z.min REPLENISH_CAP (rlimit s) in
   let '(hs, next) := replenish_loop (Z.to_nat target) (hosts s) (hseq s) target in
-  set_host s hs next (issued s) (retiredev s).
+  set_host s hs next (hsent s) (issued s) (retiredev s).
 
 (* handshake completion: the peer's transport parameters have been stored, then _replenish_connection_ids() *)
 Definition handshake_complete (s : st) (limit : Z) : st :=
   replenish (mkSt (is_client s) (cur s) (avail s) (seen s) (rpt s) (pend s) (outs s) (ackd s) (recvd s)
-                  (hosts s) (hseq s) limit (hcur s) (issued s) (retiredev s) (pkt s) (closed s)).
+                  (hosts s) (hseq s) (hsent s) limit (hcur s) (issued s) (retiredev s) (pkt s) (closed s)).
 
 Definition has_host (q : Z) (hs : list hcid) : bool := existsb (fun h => h_seq h =? q) hs.
 Fixpoint del_host (q : Z) (hs : list hcid) : list hcid :=     (* del self._host_cids[index] of the first match *)
@@ -96,14 +98,19 @@ Definition recv_packet (s : st) (d : Z) : outc * st :=
   else (OOk, set_ctx s (hcur s) (Some d) None)
   end.
 
+(* a host ID with this sequence number exists, is flagged unsent and lies above the high-water mark: its
+   NEW_CONNECTION_ID was never written *)
+Definition never_sent (q : Z) (hs : list hcid) (mark : Z) : bool :=
+  existsb (fun h => (h_seq h =? q) && negb (h_sent h) && (h_seq h >? mark)) hs.
+
 (* _handle_retire_connection_id_frame *)
 Definition recv_retire (s : st) (q : Z) : outc * st :=
   match closed s, pkt s with
   | None, Some d =>
-      if q >=? hseq s then (OQErr E_PROTOCOL_VIOLATION, set_ctx s (hcur s) None (Some E_PROTOCOL_VIOLATION))
+      if (q >=? hseq s) || never_sent q (hosts s) (hsent s) then (OQErr E_PROTOCOL_VIOLATION, set_ctx s (hcur s) None (Some E_PROTOCOL_VIOLATION))
       else if has_host q (hosts s) && (q =? d) then
         (OQErr E_PROTOCOL_VIOLATION, set_ctx s (hcur s) None (Some E_PROTOCOL_VIOLATION))
-      else (OOk, replenish (set_host s (del_host q (hosts s)) (hseq s) (issued s)
+      else (OOk, replenish (set_host s (del_host q (hosts s)) (hseq s) (hsent s) (issued s)
                                      (if has_host q (hosts s) then retiredev s ++ [q] else retiredev s)))
   | _, _ => (OIgn, s)
   end.
@@ -131,16 +138,18 @@ Definition recv_newcid (s : st) (q r n : Z) : outc * st :=
         let rpt' := Z.max r (rpt s) in
         let change := cur s <? rpt' in
         let retire0 := filter (fun c => c <? rpt') (avail s) in
-        let retire := if change then cur s :: retire0 else retire0 in
         let avail1 := filter (fun c => c >=? rpt') (avail s) in
         let fresh := (q >=? rpt') && negb (memz q (seen s)) in
+        let late := (q <? rpt') && negb (memz q (seen s)) in      (* arrives below retire_prior_to: retired at once *)
+        let retire := (if change then cur s :: retire0 else retire0) ++ (if late then [q] else []) in
         let avail2 := if fresh then avail1 ++ [q] else avail1 in
-        let seen2 := if fresh then seen s ++ [q] else seen s in
+        let seen2 := if memz q (seen s) then seen s else seen s ++ [q] in
         let pend' := pend s ++ retire in
         if change then
           match avail2 with
-          | [] =>   (* _consume_peer_cid: self._peer_cid_available.pop(0) on an empty list *)
-              (OExnIndex, set_ctx (set_peer s (cur s) [] seen2 rpt' pend' recvd') (hcur s) None None)
+          | [] =>   (* "No connection ID left after Retire Prior To" *)
+              (OQErr E_PROTOCOL_VIOLATION,
+               set_ctx (set_peer s (cur s) [] seen2 rpt' pend' recvd') (hcur s) None (Some E_PROTOCOL_VIOLATION))
           | a :: t =>
               let s' := set_peer s a t seen2 rpt' pend' recvd' in
               if 1 + Zlen t >? LOCAL_ACTIVE_CID_LIMIT then
@@ -177,7 +186,7 @@ Definition packet_done (s : st) : outc * st :=
 Definition send (s : st) : (Z * list Z * list Z) * st :=
   let news := map h_seq (filter (fun h => negb (h_sent h)) (hosts s)) in
   let hosts' := map (fun h => mkH (h_seq h) true) (hosts s) in
-  let s1 := set_host s hosts' (hseq s) (issued s ++ news) (retiredev s) in
+  let s1 := set_host s hosts' (hseq s) (fold_left Z.max news (hsent s)) (issued s ++ news) (retiredev s) in
   ((cur s, news, pend s), set_deliv s1 [] (outs s ++ pend s) (ackd s)).
 
 (* _on_retire_connection_id_delivery *)
@@ -189,7 +198,7 @@ Definition retire_delivery (s : st) (q : Z) (acked : bool) : st :=
    (an object already deleted from _host_cids is not reachable any more) *)
 Definition newcid_delivery (s : st) (q : Z) (acked : bool) : st :=
   if acked then s
-  else set_host s (map (fun h => if h_seq h =? q then mkH q false else h) (hosts s)) (hseq s) (issued s) (retiredev s).
+  else set_host s (map (fun h => if h_seq h =? q then mkH q false else h) (hosts s)) (hseq s) (hsent s) (issued s) (retiredev s).
 
 (* ------------------------------------------------------------------ ops *)
 Inductive op :=
@@ -233,10 +242,10 @@ Fixpoint run (s : st) (ops : list op) : st :=
      11                 the same, silent
      7 q a | 8 q a      delivery outcome of a RETIRE / NEW_CONNECTION_ID frame (silent)
      12                 prints obs
-   outcome tokens: 0 ok | 1 code | 2 IndexError | 3 drop | 4 ignored
+   outcome tokens: 0 ok | 1 code | 3 drop | 4 ignored (2 = exception escaped: never printed by the model)
    obs: cur, rpt, avail list, pend list, hosts as list of seq*2+was_sent, hseq, hcur, closed (0 | 1 code) *)
 Definition out_outc (o : outc) : list Z :=
-  match o with OOk => [0] | OQErr c => [1; c] | OExnIndex => [2] | ODrop => [3] | OIgn => [4] end.
+  match o with OOk => [0] | OQErr c => [1; c] | ODrop => [3] | OIgn => [4] end.
 Definition obs (s : st) : list Z :=
   [cur s; rpt s] ++ out_list (avail s) ++ out_list (pend s)
   ++ out_list (map (fun h => 2 * h_seq h + b2z (h_sent h)) (hosts s))
